@@ -57,4 +57,5 @@ var genericCmds = map[string]func(common.Args, *common.Out) error{
 	"compiledet": generic.CompileDet,
 	"maprange":   extract.MapRange,
 	"c10gated":   generic.C10Gated,
+	"progrun":    generic.ProgRun,
 }
